@@ -15,4 +15,5 @@ plan = X.plan
 
 
 def run_shard(spec, acc):
+    spec = dict(spec, prop=ID)
     X.drive(spec, acc, lambda run, acc: (lambda r, st: step_pred(r, st, acc)))
